@@ -64,7 +64,7 @@ struct Case {
 template <class T>
 struct Num {
     static constexpr unsigned W = 8 * sizeof(T);
-    static std::string name(const char * fn) { return std::string(fn) + "/w=" + std::to_string(W); }
+    static std::string name(const char * fn) { return std::string(fn) + "/w=" + std::to_string(W) + (std::is_same_v<T, unsigned long long> ? "/unsigned long long" : ""); }
 
     // all i in [lo,hi]; on a mismatch the single failing value is re-run as its own case
     static Verdict run_rp2(const Case & c)
@@ -75,6 +75,11 @@ struct Num {
         for (;; ++i) {
             T got = covfie::utility::round_pow2<T>(T(i));
             ref::u128 want = ref::round_pow2(i);
+            if (ref::u128(got) == want) {
+                // the same call with the template argument deduced from the argument's type
+                T arg = T(i);
+                got = T(covfie::utility::round_pow2(arg));
+            }
             if (ref::u128(got) != want) {
                 std::ostringstream os;
                 os << "round_pow2<uint" << W << ">(" << i << ") = " << (unsigned long long)got << ", least power of two >= i is " << (unsigned long long)want;
@@ -107,6 +112,10 @@ struct Num {
             for (e = c.e_lo;; ++e) {
                 T got = covfie::utility::ipow<T>(T(b), T(e));
                 uint64_t want = ref::ipow_mod(b, e, W);
+                if (uint64_t(got) == want) {
+                    T ab = T(b), ae = T(e);
+                    got = T(covfie::utility::ipow(ab, ae));   // template argument deduced
+                }
                 if (e <= 64 && want != ref::ipow_naive(b, e, W)) {
                     infra_exit("reference ipow implementations disagree");
                 }
@@ -238,12 +247,79 @@ struct Num {
     }
 };
 
+// calls whose arguments are literals, in initialisers of const / static const integers: contexts the compiler may
+// evaluate at translation time (if the functions allow it), which must give what a run-time call gives
+#define VF_L8(X, T) X(T, 1) X(T, 2) X(T, 3) X(T, 4) X(T, 5) X(T, 6) X(T, 7) X(T, 9) X(T, 17) X(T, 31) X(T, 33) X(T, 64) X(T, 65) X(T, 100) X(T, 127) X(T, 128)
+#define VF_L16(X, T) VF_L8(X, T) X(T, 129) X(T, 255) X(T, 257) X(T, 1000) X(T, 1025) X(T, 4097) X(T, 16385) X(T, 32767) X(T, 32768)
+#define VF_L32(X, T) VF_L16(X, T) X(T, 32769) X(T, 65537) X(T, 1048577) X(T, 16777217) X(T, 1000000000) X(T, 2147483647) X(T, 2147483648)
+#define VF_L64(X, T) VF_L32(X, T) X(T, 2147483649) X(T, 4294967297) X(T, 1099511627777) X(T, 4611686018427387905) X(T, 9223372036854775807) X(T, 9223372036854775808ull)
+#define VF_RP2_LIT(T, v)                                                                                                                       \
+    {                                                                                                                                          \
+        const T k = covfie::utility::round_pow2<T>(v);                                                                                         \
+        static const T ks = covfie::utility::round_pow2<T>(v);                                                                                 \
+        T arr[2] = {covfie::utility::round_pow2<T>(v), T(0)};                                                                                  \
+        ++n;                                                                                                                                   \
+        if (ref::u128(k) != ref::round_pow2(uint64_t(v)) || ks != k || arr[0] != k) {                                                           \
+            std::ostringstream os;                                                                                                             \
+            os << "round_pow2<" #T ">(" #v ") with a literal argument initialises a const integer with " << (unsigned long long)k << " (static const: " \
+               << (unsigned long long)ks << "), least power of two >= i is " << (unsigned long long)ref::round_pow2(uint64_t(v));              \
+            return os.str();                                                                                                                   \
+        }                                                                                                                                      \
+    }
+#define VF_IPOW_LIT(T, b, e)                                                                                                                   \
+    {                                                                                                                                          \
+        const T k = covfie::utility::ipow<T>(b, e);                                                                                            \
+        static const T ks = covfie::utility::ipow<T>(b, e);                                                                                    \
+        ++n;                                                                                                                                   \
+        if (uint64_t(k) != ref::ipow_mod(b, e, 8 * sizeof(T)) || ks != k) {                                                                     \
+            std::ostringstream os;                                                                                                             \
+            os << "ipow<" #T ">(" #b "," #e ") with literal arguments initialises a const integer with " << (unsigned long long)k;              \
+            return os.str();                                                                                                                   \
+        }                                                                                                                                      \
+    }
+using ull_t = unsigned long long;
+Verdict run_literals(const Case &)
+{
+    uint64_t n = 0;
+    VF_L8(VF_RP2_LIT, uint8_t)
+    VF_L16(VF_RP2_LIT, uint16_t)
+    VF_L32(VF_RP2_LIT, uint32_t)
+    VF_L64(VF_RP2_LIT, uint64_t)
+    VF_L64(VF_RP2_LIT, size_t)
+    VF_L64(VF_RP2_LIT, ull_t)
+    VF_IPOW_LIT(uint8_t, 3, 5)
+    VF_IPOW_LIT(uint8_t, 2, 7)
+    VF_IPOW_LIT(uint16_t, 7, 5)
+    VF_IPOW_LIT(uint16_t, 2, 16)
+    VF_IPOW_LIT(uint32_t, 10, 9)
+    VF_IPOW_LIT(uint32_t, 3, 21)
+    VF_IPOW_LIT(uint64_t, 10, 19)
+    VF_IPOW_LIT(uint64_t, 3, 41)
+    VF_IPOW_LIT(size_t, 2, 63)
+    VF_IPOW_LIT(size_t, 16, 3)
+    VF_IPOW_LIT(size_t, 1, 0)
+    VF_IPOW_LIT(size_t, 0, 0)
+    record_bulk("literal arguments", n, n);
+    return std::nullopt;
+}
+
 void register_all()
 {
     Num<uint8_t>::reg();
     Num<uint16_t>::reg();
     Num<uint32_t>::reg();
     Num<uint64_t>::reg();
+    Num<unsigned long long>::reg();   // a distinct type from uint64_t on LP64: overloads / specialisations may tell them apart
+    add_inst(
+        "literal arguments",
+        [] {
+            Case c;
+            c.fn = "literals";
+            run_explicit("literal arguments", c, run_literals);
+            note_exhaustive("literal arguments: a fixed table of round_pow2 / ipow calls with literal arguments initialising const and static const integers");
+        },
+        [](const json & j) { return run_literals(Case::from_json(j)); }
+    );
 }
 #else
 // ---------------------------------------------------------------- sizing consequence
